@@ -55,3 +55,51 @@ Theorem C19_dop853_protocol :
     (match snd (Dop853.r_cb r) with c :: rest => Dop853Protocol.no_interrupt rest | nil => True end).
 Proof. exact @Dop853Protocol.loop_trace. Qed.
 Print Assumptions C19_dop853_protocol.
+
+(* ---------------- RK23, RK4, Radau, BDF: the protocol of the whole low-level solver ----------------
+   `rec_cb cb` wraps ANY user callback in a recorder (proofs/ProtocolGen.v); the solver is started with an empty
+   record.  `res_ok c0 status x trace` (newest call first) says:
+     - consecutive calls are contiguous: each xold is exactly the x of the previous call,
+     - the newest call ends at the abscissa the solver returned,
+     - status = UserInterrupt exactly when that newest call returned Interrupt, and no earlier call returned
+       Interrupt (so nothing -- no step, no evaluation, no callback -- happens after an Interrupt),
+     - the oldest call is c0 = (xold = x0, x = x0, y0, no interpolant): the initial call.
+   For every number type, right-hand side, Jacobian, mass matrix, kernel and callback; out-of-fuel (None) excluded. *)
+Require IVP.model.Rk23 IVP.model.Rk4 IVP.model.Radau IVP.model.Bdf.
+Require IVP.proofs.ProtocolGen IVP.proofs.Rk23Protocol IVP.proofs.Rk4Protocol IVP.proofs.RadauProtocol IVP.proofs.BdfProtocol.
+Import ProtocolGen.
+
+Theorem C19_rk23_protocol :
+  forall (F : Type) (O : Ops F) (H : Type) (P : Rk23.params) f x0 y0 xend rtol atol
+         (cb : H -> F -> F -> list F -> option (list F * F * F) -> H * flag F * list F) (h0 : H) fuel r,
+    Rk23.solve O P f x0 y0 xend rtol atol (rec_cb cb) (h0, nil) fuel = Some r ->
+    exists fl0, res_ok (mkCall x0 x0 y0 None fl0) (Rk23.r_status r) (Rk23.r_x r) (snd (Rk23.r_cb r)).
+Proof. exact @Rk23Protocol.solve_trace. Qed.
+Print Assumptions C19_rk23_protocol.
+
+Theorem C19_rk4_protocol :
+  forall (F : Type) (O : Ops F) (H : Type) (P : Rk4.params) f x0 y0 xend h
+         (cb : H -> F -> F -> list F -> option (list F * F * F) -> H * flag F * list F) (h0 : H) fuel r,
+    Rk4.solve O P f x0 y0 xend h (rec_cb cb) (h0, nil) fuel = Some r ->
+    exists fl0, res_ok (mkCall x0 x0 y0 None fl0) (Rk4.r_status r) (Rk4.r_x r) (snd (Rk4.r_cb r)).
+Proof. exact @Rk4Protocol.solve_trace. Qed.
+Print Assumptions C19_rk4_protocol.
+
+Theorem C19_radau_protocol :
+  forall (F : Type) (O : Ops F) (H : Type) (P : Radau.params) f jacf mass x0 y0 xend rtol atol
+         (cb : H -> F -> F -> list F -> option (list F * F * F) -> H * flag F * list F) (h0 : H) fuel r,
+    Radau.solve O P f jacf mass x0 y0 xend rtol atol (rec_cb cb) (h0, nil) fuel = Some r ->
+    exists fl0, res_ok (mkCall x0 x0 y0 None fl0) (Radau.r_status r) (Radau.r_x r) (snd (Radau.r_cb r)).
+Proof. exact @RadauProtocol.solve_trace. Qed.
+Print Assumptions C19_radau_protocol.
+
+(* BDF (after "fix: BDF passes the previous accepted abscissa itself as xold": before, xold was x - h, equal to the
+   previous x only up to rounding -- finding F27) *)
+Theorem C19_bdf_protocol :
+  forall (F : Type) (O : Ops F) (H : Type) (P : Bdf.params) f jacf x0 y0 xend rtol atol
+         (cb : H -> F -> F -> list F -> option (list F * F * F) -> H * flag F * list F) (h0 : H) fuel r,
+    y0 <> nil ->
+    Bdf.solve O P f jacf x0 y0 xend rtol atol (rec_cb cb) (h0, nil) fuel = Some r ->
+    exists fl0, res_ok (mkCall x0 x0 y0 None fl0) (Bdf.r_status r) (Bdf.r_x r) (snd (Bdf.r_cb r)).
+Proof. exact @BdfProtocol.solve_trace. Qed.
+Print Assumptions C19_bdf_protocol.
